@@ -315,6 +315,8 @@ class Walker:
                 pass
             # state after zero or more iterations
             after = self._joins([x for x in exit_states if x is not None] + ([cur] if not isinstance(st, ast.While) else []))
+            if after is not None and hasattr(cb, 'loop_exit'):
+                after = cb.loop_exit(after, st)
             if st.orelse and after is not None:
                 e3 = self.block(st.orelse, after)
                 return Exits(e3.fall, rets + e3.returns, e3.breaks, e3.continues)
